@@ -38,3 +38,5 @@ one() {
 }
 export -f one
 seq $A $B | xargs -P $W -I{} bash -c 'one {}' >> $OUT
+# every variant is built at a fresh path: the build cache grows by tens of GB over a sweep; drop it
+go clean -cache >/dev/null 2>&1
